@@ -11,7 +11,8 @@ MANIFEST = {
     "text": "Unbounded proof over all keys, all slot strings (any length, or None) and all existing entry sets that "
             "WorldFile._modify adds/removes exactly `key` (no slot, or slot '0') or `key:slot`, leaving every other entry "
             "untouched, and that FileList.flush writes the sorted entries through AtomicWriteFile with close() only after the "
-            "complete text was written and discard() on every failure (fault injected at open/write/close).",
+            "complete text was written and discard() on every failure (fault injected at open/write/close); and that pmerge's "
+            "update_worldset performs exactly the requested add / remove followed by one flush (no flush when there was nothing to remove, nothing without a world set).",
     "note": "Trusted: atoms are identified with their text (atom(s) is modelled as s; atom parsing is C03's subject); "
             "AtomicWriteFile's contract (target replaced only by close(), one rename); sorted() returns a sorted permutation; "
             "the pyvc encoder.",
@@ -100,11 +101,47 @@ def t_flush(ex):
         ex.oblige(f"{P}.ensures.text_is_sorted", SBool(srt(seq.t)))
 
 
+def t_update_worldset(ex):
+    """pmerge's entry point: one add / remove followed by exactly one flush; nothing for a missing set; no flush when there was nothing to remove"""
+    from pyvc.models import Model, ModelHost
+    from pyvc.interp import PyRaise
+    from pyvc.sym import OutOfSubset
+    mode = ("add", "remove_present", "remove_absent", "no_world_set")[ex.choose(4)]
+    P = f"C30.update_worldset[{mode}]"
+    trace = []
+
+    class World(ModelHost):
+        def getattr(self, it_, name):
+            if name == "add":
+                return Model(lambda it__, pkg: trace.append(("add", pkg)), "world.add")
+            if name == "remove":
+                def rm(it__, pkg):
+                    trace.append(("remove", pkg))
+                    if mode == "remove_absent":
+                        raise PyRaise(KeyError(pkg))
+                return Model(rm, "world.remove")
+            if name == "flush":
+                return Model(lambda it__: trace.append(("flush",)), "world.flush")
+            raise OutOfSubset(f"world_set.{name}")
+    it = Interp(ex, label=P)
+    pkg = KStr.fresh("pkg")
+    ws = None if mode == "no_world_set" else World()
+    fn = it.target("src/pkgcore/scripts/pmerge.py", "update_worldset")
+    out = call(it, fn, ws, pkg, remove=True) if mode.startswith("remove") else call(it, fn, ws, pkg)
+    ex.oblige(f"{P}.raises.nothing", not out.raised, kind="exceptional-postcondition")
+    if out.raised:
+        return
+    want = {"add": [("add", pkg), ("flush",)], "remove_present": [("remove", pkg), ("flush",)], "remove_absent": [("remove", pkg)], "no_world_set": []}[mode]
+    ex.oblige(f"{P}.ensures.exactly_the_requested_change_then_one_flush_unless_nothing_changed",
+              len(trace) == len(want) and all(a[0] == b[0] and (len(a) == 1 or a[1] is b[1]) for a, b in zip(trace, want)))
+
+
 def tasks():
     return [
         Task("C30.WorldFile._modify", t_modify, [(FILE, "WorldFile._modify"), (FILE, "FileList.add"), (FILE, "FileList.remove")],
              fallback={"unroll": 3}),
         Task("C30.FileList.flush", t_flush, [(FILE, "FileList.flush")]),
+        Task("C30.update_worldset", t_update_worldset, [("src/pkgcore/scripts/pmerge.py", "update_worldset")]),
     ]
 
 
